@@ -399,296 +399,274 @@ def receiverExpr (receiver : Option Node) (r : Text) : Text :=
   | some rcv => if r != "" then (if isBottom rcv then "(" ++ r ++ ")." else r ++ ".") else ""
   | none => ""
 
+/-! ## Text assembly of the visit methods (everything after the children have been visited) -/
+
+/-- `visit_block`: `cr` = `pop_children_res(children)`, `st` = the state at that point -/
+def blockText (st : St) (cr : List Text) : Text :=
+  let res := match cr with
+    | [] => "{ }"
+    | [stmt] => "{\n" ++ sp st.ident ++ stmt ++ "\n" ++ sp (st.ident - 2) ++ "}"
+    | _ => "{\n" ++ join ";\n" cr ++ "\n" ++ sp (st.ident - 2) ++ "}"
+  if st.insideIs && !st.insideIsFunction then res ++ "()" else res
+
+/-- `construct_constructor()`; `superCallT` is the `super_call` text -/
+def ctorText (st : St) (name : String) (fields : List Node) (superCallT : Text) : Text :=
+  let params := join "," ((ctorParams fields).map fun p => p.2 ++ " " ++ p.1)
+  let fs := fields.map fun fd => "this." ++ fieldName fd ++ " = " ++ fieldName fd
+  let cfields := (if !fs.isEmpty then "\n" ++ sp (st.ident + 2) else "") ++ join ("\n" ++ sp (st.ident + 2)) fs
+  sp st.ident ++ "public " ++ name ++ "(" ++ params ++ ") {" ++ superCallT ++ cfields ++ "\n" ++
+    (if !fs.isEmpty then sp st.ident else "") ++ "}"
+
+/-- `visit_class_decl` after the children: `st` has `ident = old + 2` and the class' namespace -/
+def classText (st : St) (old : Nat) (name : String) (ctype : Nat) (isFinal : Bool) (fields supers funcs : List Node)
+    (cr : List Text) (superCallT : Text) : Text :=
+  let fieldRes := (List.range fields.length).map fun i => at! cr i
+  let funcRes := (List.range funcs.length).map fun i => at! cr (i + fields.length + supers.length)
+  let tpr := join ", " (cr.drop (fields.length + supers.length + funcs.length))
+  let res := sp old ++ (if isFinal then "final " else "") ++
+    (if ctype == 0 then "class" else if ctype == 1 then "interface" else "abstract class") ++ " " ++ name
+  let res := if tpr != "" then res ++ "<" ++ tpr ++ ">" else res
+  -- get_superclasses_interfaces
+  let classify := classifySupers st supers
+  let keyErr := classify.any fun p => p.2.isNone
+  let superclasses := (classify.filter fun p => p.2 != some true).map (·.1)
+  let interfaces := (classify.filter fun p => p.2 == some true).map (·.1)
+  let res := if !superclasses.isEmpty then res ++ " extends " ++ join ", " superclasses else res
+  let res := if !interfaces.isEmpty then
+      res ++ (if ctype == 1 then " extends " else " implements ") ++ join ", " interfaces
+    else res
+  let body :=
+    if !funcRes.isEmpty || !fieldRes.isEmpty || !superclasses.isEmpty then
+      let b := " {\n"
+      let b := if !fieldRes.isEmpty then b ++ sp st.ident ++ join ("\n" ++ sp st.ident) fieldRes ++ "\n\n" else b
+      let b := if !superclasses.isEmpty || !fieldRes.isEmpty then
+          b ++ ctorText st name fields superCallT ++ (if !funcRes.isEmpty then "\n\n" else "")
+        else b
+      let b := if !funcRes.isEmpty then b ++ join "\n\n" funcRes else b
+      b ++ "\n" ++ sp (st.ident - 4) ++ "}"
+    else " {}"
+  if keyErr then errKey else res ++ body
+
+/-- `visit_var_decl` after the child -/
+def varDeclText (st : St) (name : String) (isFinal : Bool) (varType inferred : Option Ty) (cr : List Text) : Text :=
+  let vt := if varType.isSome || st.ns == ["global"] then typeNameO inferred ++ " " else ""
+  let mp := if st.ns != ["global"] then mainPrefix st "vars" name else ""
+  sp st.ident ++ (if isFinal then "final " else "") ++ (if vt != "" then vt else "def ") ++ mp ++
+    name ++ " = " ++ lstrip (at! cr 0)
+
+/-- `visit_param_decl` without the default value -/
+def paramText (name : String) (t : Ty) (vararg : Bool) : Text :=
+  let pt := match vararg, t with
+    | true, .param _ _ (a :: _) _ => typeName a
+    | true, .param _ _ [] _ => errIndex
+    | _, _ => typeName t
+  pt ++ (if vararg then "..." else "") ++ " " ++ name
+
+/-- `visit_func_decl` after the children -/
+def funcDeclText (st : St) (old : Nat) (name : String) (params : List Node) (retType inferred : Option Ty)
+    (body : Option Node) (isFinal : Bool) (tparams : List Ty) (cr : List Text) : Text :=
+  let isExpr := !isBlockO body
+  let paramRes := (List.range params.length).map fun i => at! cr i
+  let tpr := join ", " ((cr.drop params.length).take tparams.length)
+  let bodyRes := if body.isSome then last! cr else ""
+  let bodyT :=
+    if bodyRes != "" then
+      (if isExpr then "{\n" ++ bodyRes ++ "\n" ++ identOld st old ++ "}" else bodyRes)
+    else ""
+  if isClosure st then
+    let pfx := if retType.isNone || optIsCls retType clsVoid then
+        (match inferred with | some _ => "def" | none => errNone)   -- `ret_type.is_primitive()` comes first
+      else "Closure<" ++ boxedTypeNameO inferred ++ ">"
+    identOld st old ++ pfx ++ " " ++ name ++ " = { " ++ join ", " paramRes ++ " -> " ++ bodyRes ++ "}"
+  else
+    identOld st old ++ (if isFinal then "final " else "") ++ (if bodyT == "" then "abstract " else "") ++
+      (if tpr != "" then "<" ++ tpr ++ ">" else "") ++ typeNameO inferred ++ " " ++ name ++
+      "(" ++ join ", " paramRes ++ ") " ++ bodyT
+
+/-- `visit_lambda` after the children -/
+def lambdaText (params : List Node) (retType : Option Ty) (cr : List Text) : Text :=
+  let paramRes := (List.range params.length).map fun i => at! cr i
+  match retType with
+  | none => errNone                                   -- `None.is_primitive()`
+  | some _ =>
+    "{ " ++ join ", " paramRes ++ " -> " ++ last! cr ++ "} " ++ " as " ++ signatureName (paramTypes params) retType
+
+/-- `visit_bottom_constant` -/
+def bottomText (st : St) (t : Option Ty) : Text :=
+  sp st.ident ++ (if parentIsFuncRef st then "(" else "") ++
+    (match t with | some x => "(" ++ typeName x ++ ") " | none => "") ++ "null" ++
+    (if parentIsFuncRef st then ")" else "")
+
+/-- `visit_array_expr`, `length == 0` -/
+def emptyArrayText (st : St) (t : Ty) : Text :=
+  sp st.ident ++ "new " ++
+    (match t with | .param _ _ (a :: _) _ => typeName a | .param _ _ [] _ => errIndex | _ => errAttr) ++ "[0]"
+
+/-- `visit_conditional` after the children (`st.ident = old + 2`) -/
+def condText (st : St) (old : Nat) (cr : List Text) : Text :=
+  identOld st old ++ "((" ++ lstrip (at! cr 0) ++ ") ?\n" ++ at! cr 1 ++ " : \n " ++ at! cr 2 ++ ")"
+
+/-- `visit_func_call` after the children -/
+def callText (st : St) (func : String) (receiver : Option Node) (isRefCall : Bool) (cr : List Text) : Text :=
+  let mp := mainPrefix st "funcs" func
+  let mp := if mp == "" then mainPrefix st "vars" func else mp
+  let argsT := if receiver.isSome then cr.drop 1 else cr
+  let recvT := if receiver.isSome then receiverExpr receiver (at! cr 0) else ""
+  sp st.ident ++ recvT ++ mp ++ func ++ (if isRefCall then ".apply" else "") ++ "(" ++ join ", " argsT ++ ")"
+
+/-- `visit_assign` after the children -/
+def assignText (st : St) (old : Nat) (name : String) (receiver : Option Node) (cr : List Text) : Text :=
+  let recvT := if receiver.isSome then receiverExpr receiver (at! cr 0) else ""
+  let exprT := if receiver.isSome then at! cr 1 else at! cr 0
+  identOld st old ++ recvT ++ mainPrefix st "vars" name ++ name ++ " = " ++ exprT
+
+/-! ## State changes of `visit_func_decl` / `visit_lambda` around their children -/
+
+/-- `old_ident` of `visit_func_decl` / `visit_lambda`; `st` already has the new namespace -/
+def funcOld (st : St) : Nat := if parentIsGlobal st.ns then st.ident + 2 else st.ident
+
+/-- up to the child loop of `visit_func_decl` (`isFunc`) / `visit_lambda`; `st` has the new namespace -/
+def funcEnter (isFunc : Bool) (st : St) (unit isExpr : Bool) : St :=
+  let st := if isFunc && st.insideIs then { st with insideIsFunction := true } else st
+  let st := if parentIsGlobal st.ns then { st with ident := st.ident + 2 } else st
+  let st := { st with ident := st.ident + 2 }
+  let st := { st with isUnit := unit }
+  if isExpr then { st with castNumber := false } else st
+
+/-- the restoring assignments at the end of `visit_func_decl` (`isFunc`) / `visit_lambda`:
+    `entry` is the state when the method was entered (namespace already changed), `st` the current one -/
+def funcLeave (isFunc : Bool) (entry st : St) : St :=
+  let old := funcOld entry
+  let old := if parentIsGlobal st.ns then old - 2 else old
+  let st := { st with ident := old, isUnit := entry.isUnit, castNumber := entry.castNumber }
+  if isFunc && st.insideIs then { st with insideIsFunction := entry.insideIsFunction } else st
+
 /-! ## The visitor -/
 
 mutual
 /-- `append_to(visit_*)` of the node: push, the method body, pop, route -/
 def visit (st0 : St) (o : Out) : Node → St × Out
   | .block body isFunc =>
-    let st := push .other st0
-    let r := blockKids isFunc st o body
-    let st1 := r.1
+    let r := blockKids isFunc (push .other st0) o body
     let pr := popRes body.length r.2
-    let cr := pr.2
-    let res := match cr with
-      | [] => "{ }"
-      | [stmt] => "{\n" ++ sp st1.ident ++ stmt ++ "\n" ++ sp (st1.ident - 2) ++ "}"
-      | _ => "{\n" ++ join ";\n" cr ++ "\n" ++ sp (st1.ident - 2) ++ "}"
-    let res := if st1.insideIs && !st1.insideIsFunction then res ++ "()" else res
-    fin .other st1 pr.1 res
-  | .superInst t _ =>
-    let st := push .other st0
-    fin .other st o (typeName t)
+    fin .other r.1 pr.1 (blockText r.1 pr.2)
+  | .superInst t _ => fin .other (push .other st0) o (typeName t)
   | .classDecl name ctype isFinal fields supers funcs tparams =>
     let st := push .classD st0
-    -- change_namespace
-    let initialNs := st.ns
-    let st := { st with ns := st.ns ++ [name] }
-    let old := st.ident
-    let st := { st with ident := st.ident + 2 }
-    let r1 := visitL st o fields
+    -- change_namespace, `self.ident += 2`
+    let r1 := visitL { st with ns := st.ns ++ [name], ident := st.ident + 2 } o fields
     let r2 := visitL r1.1 r1.2 supers
     let r3 := visitL r2.1 r2.2 funcs
-    let st3 := r3.1
     let o3 := { r3.2 with childrenRes := r3.2.childrenRes ++ tparams.map typeParamStr }
     let pr := popRes (fields.length + supers.length + funcs.length + tparams.length) o3
-    let cr := pr.2
-    let fieldRes := (List.range fields.length).map fun i => at! cr i
-    let funcRes := (List.range funcs.length).map fun i => at! cr (i + fields.length + supers.length)
-    let tpr := join ", " (cr.drop (fields.length + supers.length + funcs.length))
-    let res := sp old ++ (if isFinal then "final " else "") ++
-      (if ctype == 0 then "class" else if ctype == 1 then "interface" else "abstract class") ++ " " ++ name
-    let res := if tpr != "" then res ++ "<" ++ tpr ++ ">" else res
-    -- get_superclasses_interfaces
-    let classify := classifySupers st3 supers
-    let keyErr := classify.any fun p => p.2.isNone
-    let superclasses := (classify.filter fun p => p.2 != some true).map (·.1)
-    let interfaces := (classify.filter fun p => p.2 == some true).map (·.1)
-    let res := if !superclasses.isEmpty then res ++ " extends " ++ join ", " superclasses else res
-    let res := if !interfaces.isEmpty then
-        res ++ (if ctype == 1 then " extends " else " implements ") ++ join ", " interfaces
-      else res
-    -- construct_constructor
-    let ctor : Text :=
-      let params := join "," ((ctorParams fields).map fun p => p.2 ++ " " ++ p.1)
-      let fs := fields.map fun fd => "this." ++ fieldName fd ++ " = " ++ fieldName fd
-      let cfields := (if !fs.isEmpty then "\n" ++ sp (st3.ident + 2) else "") ++ join ("\n" ++ sp (st3.ident + 2)) fs
-      sp st3.ident ++ "public " ++ name ++ "(" ++ params ++ ") {" ++ superCall st3 supers ++ cfields ++ "\n" ++
-        (if !fs.isEmpty then sp st3.ident else "") ++ "}"
-    let body :=
-      if !funcRes.isEmpty || !fieldRes.isEmpty || !superclasses.isEmpty then
-        let b := " {\n"
-        let b := if !fieldRes.isEmpty then b ++ sp st3.ident ++ join ("\n" ++ sp st3.ident) fieldRes ++ "\n\n" else b
-        let b := if !superclasses.isEmpty || !fieldRes.isEmpty then
-            b ++ ctor ++ (if !funcRes.isEmpty then "\n\n" else "")
-          else b
-        let b := if !funcRes.isEmpty then b ++ join "\n\n" funcRes else b
-        b ++ "\n" ++ sp (st3.ident - 4) ++ "}"
-      else " {}"
-    let res := if keyErr then errKey else res ++ body
-    let st4 := { st3 with ident := old }
-    fin .other { st4 with ns := initialNs } pr.1 res
+    let res := classText r3.1 st.ident name ctype isFinal fields supers funcs pr.2 (superCall r3.1 supers)
+    fin .other { r3.1 with ident := st.ident, ns := st.ns } pr.1 res
   | .varDecl name expr isFinal varType inferred =>
     let st := push .other st0
-    let prev := st.castNumber
-    let st := { st with castNumber := varType.isNone }
-    let r := visit st o expr
-    let st1 := r.1
+    let r := visit { st with castNumber := varType.isNone } o expr
     let pr := popRes 1 r.2
-    let vt := if varType.isSome || st1.ns == ["global"] then typeNameO inferred ++ " " else ""
-    let mp := if st1.ns != ["global"] then mainPrefix st1 "vars" name else ""
-    let res := sp st1.ident ++ (if isFinal then "final " else "") ++ (if vt != "" then vt else "def ") ++ mp ++
-      name ++ " = " ++ lstrip (at! pr.2 0)
-    fin .varD { st1 with castNumber := prev } pr.1 res
+    fin .varD { r.1 with castNumber := st.castNumber } pr.1 (varDeclText r.1 name isFinal varType inferred pr.2)
   | .callArg expr _ =>
     let st := push .other st0
-    let old := st.ident
     let r := visit { st with ident := 0 } o expr
-    let st1 := { r.1 with ident := old }
     let pr := popRes 1 r.2
-    fin .other st1 pr.1 (at! pr.2 0)
+    fin .other { r.1 with ident := st.ident } pr.1 (at! pr.2 0)
   | .fieldDecl name t isFinal _ _ =>
-    let st := push .other st0
-    fin .other st o ("public " ++ (if isFinal then "final " else "") ++ typeName t ++ " " ++ name)
+    fin .other (push .other st0) o ("public " ++ (if isFinal then "final " else "") ++ typeName t ++ " " ++ name)
   | .paramDecl name t vararg dflt =>
     let st := push .other st0
-    let old := st.ident
     let r := visitO { st with ident := 0 } o dflt
-    let st1 := { r.1 with ident := old }
-    let pt := match vararg, t with
-      | true, .param _ _ (a :: _) _ => typeName a
-      | true, .param _ _ [] _ => errIndex
-      | _, _ => typeName t
-    let res := pt ++ (if vararg then "..." else "") ++ " " ++ name
-    match dflt with
-    | some _ =>
-      let pr := popRes 1 r.2
-      fin .other st1 pr.1 (res ++ " = " ++ at! pr.2 0)
-    | none => fin .other st1 r.2 res
+    let pr := popRes (if dflt.isSome then 1 else 0) r.2
+    fin .other { r.1 with ident := st.ident } pr.1
+      (paramText name t vararg ++ (if dflt.isSome then " = " ++ at! pr.2 0 else ""))
   | .funcDecl name params retType inferred body isFinal _ tparams _ =>
     let st := push .other st0
     -- change_namespace
-    let initialNs := st.ns
-    let st := { st with ns := st.ns ++ [name] }
-    let prevIIF := st.insideIsFunction
-    let st := if st.insideIs then { st with insideIsFunction := true } else st
-    let old := if parentIsGlobal st.ns then st.ident + 2 else st.ident
-    let st := if parentIsGlobal st.ns then { st with ident := st.ident + 2 } else st
-    let st := { st with ident := st.ident + 2 }
-    let prevCast := st.castNumber
-    let prevUnit := st.isUnit
-    let st := { st with isUnit := optIsCls inferred clsVoid }
-    let isExpr := !isBlockO body
-    let st := if isExpr then { st with castNumber := false } else st
-    let r1 := visitL st o params
+    let entry := { st with ns := st.ns ++ [name] }
+    let r1 := visitL (funcEnter true entry (optIsCls inferred clsVoid) (!isBlockO body)) o params
     let o2 := { r1.2 with childrenRes := r1.2.childrenRes ++ tparams.map typeParamStr }
     let r3 := visitO r1.1 o2 body
-    let st3 := r3.1
     let pr := popRes (params.length + tparams.length + (if body.isSome then 1 else 0)) r3.2
-    let cr := pr.2
-    let paramRes := (List.range params.length).map fun i => at! cr i
-    let tpr := join ", " ((cr.drop params.length).take tparams.length)
-    let bodyRes := if body.isSome then last! cr else ""
-    let bodyT :=
-      if bodyRes != "" then
-        (if isExpr then "{\n" ++ bodyRes ++ "\n" ++ identOld st3 old ++ "}" else bodyRes)
-      else ""
-    let res :=
-      if isClosure st3 then
-        let pfx := if retType.isNone || optIsCls retType clsVoid then
-            (match inferred with | some _ => "def" | none => errNone)   -- `ret_type.is_primitive()` comes first
-          else "Closure<" ++ boxedTypeNameO inferred ++ ">"
-        identOld st3 old ++ pfx ++ " " ++ name ++ " = { " ++ join ", " paramRes ++ " -> " ++ bodyRes ++ "}"
-      else
-        identOld st3 old ++ (if isFinal then "final " else "") ++ (if bodyT == "" then "abstract " else "") ++
-          (if tpr != "" then "<" ++ tpr ++ ">" else "") ++ typeNameO inferred ++ " " ++ name ++
-          "(" ++ join ", " paramRes ++ ") " ++ bodyT
-    let old := if parentIsGlobal st3.ns then old - 2 else old
-    let st4 := { st3 with ident := old, isUnit := prevUnit, castNumber := prevCast }
-    let st5 := if st4.insideIs then { st4 with insideIsFunction := prevIIF } else st4
-    fin (.funcD (name == "main")) { st5 with ns := initialNs } pr.1 res
+    let res := funcDeclText r3.1 (funcOld entry) name params retType inferred body isFinal tparams pr.2
+    fin (.funcD (name == "main")) { funcLeave true entry r3.1 with ns := st.ns } pr.1 res
   | .lambda name params retType body _ =>
     let st := push .other st0
     -- change_namespace
-    let initialNs := st.ns
-    let st := { st with ns := st.ns ++ [name] }
-    let old := if parentIsGlobal st.ns then st.ident + 2 else st.ident
-    let st := if parentIsGlobal st.ns then { st with ident := st.ident + 2 } else st
-    let st := { st with ident := st.ident + 2 }
-    let prevCast := st.castNumber
-    let prevUnit := st.isUnit
-    let st := { st with isUnit := optIsCls retType clsVoid }
-    let isExpr := !isBlockO (some body)
-    let st := if isExpr then { st with castNumber := false } else st
-    let r1 := visitL st o params
+    let entry := { st with ns := st.ns ++ [name] }
+    let r1 := visitL (funcEnter false entry (optIsCls retType clsVoid) (!isBlockO (some body))) o params
     let r2 := visit r1.1 r1.2 body
-    let st2 := r2.1
     let pr := popRes (params.length + 1) r2.2
-    let cr := pr.2
-    let paramRes := (List.range params.length).map fun i => at! cr i
-    let bodyRes := last! cr
-    let res := match retType with
-      | none => errNone                                   -- `None.is_primitive()`
-      | some _ =>
-        "{ " ++ join ", " paramRes ++ " -> " ++ bodyRes ++ "} " ++ " as " ++ signatureName (paramTypes params) retType
-    let old := if parentIsGlobal st2.ns then old - 2 else old
-    let st3 := { st2 with ident := old, isUnit := prevUnit, castNumber := prevCast }
-    fin .other { st3 with ns := initialNs } pr.1 res
+    fin .other { funcLeave false entry r2.1 with ns := st.ns } pr.1 (lambdaText params retType pr.2)
   | .funcRef func receiver sig =>
     let st := push .funcRef st0
-    let old := st.ident
     let r := visitO { st with ident := 0 } o receiver
-    let st1 := { r.1 with ident := old }
+    let st1 := { r.1 with ident := st.ident }
     let pr := popRes (if receiver.isSome then 1 else 0) r.2
-    let recv := match pr.2 with | x :: _ => x | [] => "Main"
-    fin .other st1 pr.1 (sp st1.ident ++ recv ++ "::" ++ func ++ " as " ++ typeNameO sig)
-  | .bottom t =>
-    let st := push .other st0
-    fin .other st o (sp st.ident ++ (if parentIsFuncRef st then "(" else "") ++
-      (match t with | some x => "(" ++ typeName x ++ ") " | none => "") ++ "null" ++
-      (if parentIsFuncRef st then ")" else ""))
-  | .intC lit t =>
-    let st := push .other st0
-    fin .other st o (sp st.ident ++ intText st lit t)
-  | .realC lit t =>
-    let st := push .other st0
-    fin .other st o (sp st.ident ++ realText st lit t)
-  | .boolC lit => let st := push .other st0; fin .other st o (sp st.ident ++ lit)
-  | .charC lit => let st := push .other st0; fin .other st o (sp st.ident ++ "(Character) '" ++ lit ++ "'")
-  | .stringC lit => let st := push .other st0; fin .other st o (sp st.ident ++ "\"" ++ lit ++ "\"")
+    fin .other st1 pr.1
+      (sp st1.ident ++ (match pr.2 with | x :: _ => x | [] => "Main") ++ "::" ++ func ++ " as " ++ typeNameO sig)
+  | .bottom t => fin .other (push .other st0) o (bottomText (push .other st0) t)
+  | .intC lit t => fin .other (push .other st0) o (sp st0.ident ++ intText st0 lit t)
+  | .realC lit t => fin .other (push .other st0) o (sp st0.ident ++ realText st0 lit t)
+  | .boolC lit => fin .other (push .other st0) o (sp st0.ident ++ lit)
+  | .charC lit => fin .other (push .other st0) o (sp st0.ident ++ "(Character) '" ++ lit ++ "'")
+  | .stringC lit => fin .other (push .other st0) o (sp st0.ident ++ "\"" ++ lit ++ "\"")
   | .arrayE t len exprs =>
     let st := push .other st0
-    if len == 0 then
-      fin .other st o (sp st.ident ++ "new " ++
-        (match t with | .param _ _ (a :: _) _ => typeName a | .param _ _ [] _ => errIndex | _ => errAttr) ++ "[0]")
+    if len == 0 then fin .other st o (emptyArrayText st t)
     else
-      let old := st.ident
       let r := visitL { st with ident := 0 } o exprs
       let pr := popRes exprs.length r.2
-      let st1 := { r.1 with ident := old }
-      fin .other st1 pr.1 (sp st1.ident ++ "new " ++ typeName t ++ "{" ++ join ", " pr.2 ++ "}")
+      fin .other { r.1 with ident := st.ident } pr.1
+        (sp st.ident ++ "new " ++ typeName t ++ "{" ++ join ", " pr.2 ++ "}")
   | .variable name =>
-    let st := push .other st0
-    fin .other st o (sp st.ident ++ mainPrefix st "vars" name ++ name)
+    fin .other (push .other st0) o (sp st0.ident ++ mainPrefix (push .other st0) "vars" name ++ name)
   | .binop _ l r op =>
     let st := push .other st0
-    let old := st.ident
     let ra := visit { st with ident := 0 } o l
     let rb := visit ra.1 ra.2 r
-    let st2 := rb.1
     let pr := popRes 2 rb.2
-    let res := identOld st2 old ++ "(" ++ at! pr.2 0 ++ " " ++ op ++ " " ++ at! pr.2 1 ++ ")"
-    fin .other { st2 with ident := old } pr.1 res
+    fin .other { rb.1 with ident := st.ident } pr.1
+      (identOld rb.1 st.ident ++ "(" ++ at! pr.2 0 ++ " " ++ op ++ " " ++ at! pr.2 1 ++ ")")
   | .cond c tb fb _ =>
     let st := push .other st0
-    let prevInsideIs := st.insideIs
-    let prevNs := st.ns
-    let st := { st with insideIs := true }
-    let old := st.ident
-    let st := { st with ident := st.ident + 2 }
-    let rc := visit st o c
-    let rt := visit { rc.1 with ns := prevNs ++ ["true_block"] } rc.2 tb
-    let rf := visit { rt.1 with ns := prevNs ++ ["false_block"] } rt.2 fb
-    let st3 := { rf.1 with ns := prevNs }
+    let rc := visit { st with insideIs := true, ident := st.ident + 2 } o c
+    let rt := visit { rc.1 with ns := st.ns ++ ["true_block"] } rc.2 tb
+    let rf := visit { rt.1 with ns := st.ns ++ ["false_block"] } rt.2 fb
+    let st3 := { rf.1 with ns := st.ns }
     let pr := popRes 3 rf.2
-    let res := identOld st3 old ++ "((" ++ lstrip (at! pr.2 0) ++ ") ?\n" ++ at! pr.2 1 ++ " : \n " ++ at! pr.2 2 ++ ")"
-    fin .other { st3 with ident := old, insideIs := prevInsideIs } pr.1 res
+    fin .other { st3 with ident := st.ident, insideIs := st.insideIs } pr.1 (condText st3 st.ident pr.2)
   | .isE e t isNot =>
     let st := push .other st0
-    let old := st.ident
     let r := visit { st with ident := 0 } o e
-    let st1 := r.1
     let pr := popRes 1 r.2
-    let res := identOld st1 old ++ at! pr.2 0 ++ " " ++ (if isNot then "!instanceof" else "instanceof") ++ " " ++ typeName t
-    fin .other { st1 with ident := old } pr.1 res
+    fin .other { r.1 with ident := st.ident } pr.1
+      (identOld r.1 st.ident ++ at! pr.2 0 ++ " " ++ (if isNot then "!instanceof" else "instanceof") ++ " " ++ typeName t)
   | .newE t args canInfer =>
     let st := push .other st0
-    let old := st.ident
-    let prevCast := st.castNumber
     let r := visitL { st with ident := 0, castNumber := true } o args
     let pr := popRes args.length r.2
-    let st1 := { r.1 with ident := old }
-    let cls := if canInfer then attrName t ++ "<>" else typeName t
-    let res := sp st1.ident ++ "new " ++ cls ++ "(" ++ join ", " pr.2 ++ ")"
-    fin .other { st1 with castNumber := prevCast } pr.1 res
+    fin .other { r.1 with ident := st.ident, castNumber := st.castNumber } pr.1
+      (sp st.ident ++ "new " ++ (if canInfer then attrName t ++ "<>" else typeName t) ++ "(" ++ join ", " pr.2 ++ ")")
   | .fieldAccess e field =>
     let st := push .other st0
-    let old := st.ident
     let r := visit { st with ident := 0 } o e
     let pr := popRes 1 r.2
-    let st1 := { r.1 with ident := old }
-    let recv := if isBottom e then "(" ++ at! pr.2 0 ++ ")" else at! pr.2 0
-    fin .other st1 pr.1 (sp st1.ident ++ recv ++ "." ++ field)
+    fin .other { r.1 with ident := st.ident } pr.1
+      (sp st.ident ++ (if isBottom e then "(" ++ at! pr.2 0 ++ ")" else at! pr.2 0) ++ "." ++ field)
   | .call func args receiver _ _ isRefCall =>
     let st := push .other st0
-    let old := st.ident
-    let prevCast := st.castNumber
     let rr := visitO { st with ident := 0, castNumber := true } o receiver
     let ra := visitL rr.1 rr.2 args
-    let st1 := { ra.1 with ident := old }
+    let st1 := { ra.1 with ident := st.ident }
     let pr := popRes ((if receiver.isSome then 1 else 0) + args.length) ra.2
-    let cr := pr.2
-    let mp := mainPrefix st1 "funcs" func
-    let mp := if mp == "" then mainPrefix st1 "vars" func else mp
-    let argsT := if receiver.isSome then cr.drop 1 else cr
-    let recvT := if receiver.isSome then receiverExpr receiver (at! cr 0) else ""
-    let res := sp st1.ident ++ recvT ++ mp ++ func ++ (if isRefCall then ".apply" else "") ++
-      "(" ++ join ", " argsT ++ ")"
-    fin .other { st1 with castNumber := prevCast } pr.1 res
+    fin .other { st1 with castNumber := st.castNumber } pr.1 (callText st1 func receiver isRefCall pr.2)
   | .assign name expr receiver =>
     let st := push .other st0
-    let old := st.ident
-    let prevCast := st.castNumber
     let rr := visitO { st with ident := 0, castNumber := false } o receiver
     let re := visit rr.1 rr.2 expr
-    let st1 := { re.1 with ident := old }
+    let st1 := { re.1 with ident := st.ident }
     let pr := popRes ((if receiver.isSome then 1 else 0) + 1) re.2
-    let cr := pr.2
-    let nm := mainPrefix st1 "vars" name ++ name
-    let recvT := if receiver.isSome then receiverExpr receiver (at! cr 0) else ""
-    let exprT := if receiver.isSome then at! cr 1 else at! cr 0
-    let res := identOld st1 old ++ recvT ++ nm ++ " = " ++ exprT
-    fin .other { st1 with ident := old, castNumber := prevCast } pr.1 res
+    fin .other { st1 with castNumber := st.castNumber } pr.1 (assignText st1 st.ident name receiver pr.2)
 /-- `for c in children: c.accept(self)` -/
 def visitL (st : St) (o : Out) : List Node → St × Out
   | [] => (st, o)
@@ -704,9 +682,8 @@ def blockKids (isFunc : Bool) (st : St) (o : Out) : List Node → St × Out
   | [] => (st, o)
   | [x] =>
     if isFunc && !st.isUnit then
-      let prev := st.castNumber
       let r := visit { st with castNumber := false } o x
-      ({ r.1 with castNumber := prev }, r.2)
+      ({ r.1 with castNumber := st.castNumber }, r.2)
     else visit st o x
   | x :: y :: rest =>
     let r := visit st o x
